@@ -36,6 +36,7 @@ MkC(f)   == Mk("Conj", QZero, QZero, <<>>, <<>>, <<f>>)     \* FunctionalDefault
 RInv(v)  == Strict([i \in 1..Len(v) |-> QInv(v[i])])
 
 (* ------------------------------ convex_conj ----------------------------- *)
+ConjExp(f) == IF PExp(f) = 1 THEN Inf ELSE IF PExp(f) = 3 THEN QOne ELSE QI(2)
 RECURSIVE ConjImpl(_, _), Impl(_, _)
 \* the ODL object an abstract program denotes: every "Conj" node is what .convex_conj returned
 Impl(sp, f) ==
@@ -51,8 +52,9 @@ ConjImpl(sp, f) ==
     [] f.op = "IndBallInf" -> Leaf("L1")                \* IndicatorLpUnitBall.convex_conj
     [] f.op = "IndBall2"   -> Leaf("L2")
     [] f.op = "IndBall1"   -> Leaf("Linf")
-    [] f.op = "GroupL1"      -> Leaf("IndGroupBall")
-    [] f.op = "IndGroupBall" -> Leaf("GroupL1")
+    \* conj_exponent(pointwise exponent): 1 <-> inf, 2 <-> 2
+    [] f.op = "GroupL1"      -> LeafS("IndGroupBall", ConjExp(f))
+    [] f.op = "IndGroupBall" -> LeafS("GroupL1", ConjExp(f))
     [] f.op = "L2sq"  -> Mk("LScale", Q(1, 4), QZero, <<>>, <<>>, <<Leaf("L2sq")>>)   \* (1.0 / 4) * L2NormSquared
     [] f.op = "Const" -> LeafSC("IndZero", QZero, QNeg(f.c))       \* IndicatorZero(domain, -constant)
     [] f.op = "IndZero" -> LeafSC("Const", QZero, QNeg(f.c))       \* ConstantFunctional(domain, -constant)
@@ -160,13 +162,18 @@ ProxImpl(sp, f, sg, x) ==
          IF ~AllEq(sg) THEN NoVec
          ELSE LET q == ProxImpl(sp, Leaf("L2"), RConst(n, QInv(sg[1])), RScal(QInv(sg[1]), x)) IN
               IF IsTok(q) THEN q ELSE RSub(x, RScal(sg[1], q))
-    [] f.op = "GroupL1" ->  \* proximal_l1_l2: x - x / max(|x(i)|_2 / sigma, 1)
-         IF ~AllEq(sg) THEN NoVec
+    [] f.op = "GroupL1" ->  \* exponent 1: proximal_l1 ; 2: proximal_l1_l2: x - x / max(|x(i)|_2 / sigma, 1) ; else not implemented
+         IF PExp(f) = 3 THEN NoImpl
+         ELSE IF PExp(f) = 1 THEN Strict([i \in 1..n |-> QSub(x[i], QDiv(x[i], QMax(QDiv(QAbs(x[i]), sg[i]), QOne)))])
+         ELSE IF ~AllEq(sg) THEN NoVec
          ELSE LET r == Strict([i \in 1..NGrp(sp) |-> XSqrt(GSq(sp, x, i))]) IN
               IF \E i \in 1..NGrp(sp) : ~XKnown(r[i]) THEN Irr
               ELSE Strict([j \in 1..n |-> LET i == ((j - 1) % sp.n) + 1 IN
                              QSub(x[j], QDiv(x[j], QMax(QDiv(r[i], sg[1]), QOne)))])
-    [] f.op = "IndGroupBall" -> \* proximal_convex_conj_l1_l2: x / max(1, |x(i)|_2)
+    [] f.op = "IndGroupBall" -> \* exponent inf: proximal_convex_conj_l1 ; 2: proximal_convex_conj_l1_l2: x / max(1, |x(i)|_2)
+         IF PExp(f) = 1 THEN NoImpl
+         ELSE IF PExp(f) = 3 THEN Strict([i \in 1..n |-> QDiv(x[i], QMax(QOne, QAbs(x[i])))])
+         ELSE
          LET r == Strict([i \in 1..NGrp(sp) |-> XSqrt(GSq(sp, x, i))]) IN
          IF \E i \in 1..NGrp(sp) : ~XKnown(r[i]) THEN Irr
          ELSE Strict([j \in 1..n |-> LET i == ((j - 1) % sp.n) + 1 IN QDiv(x[j], QMax(QOne, r[i]))])
